@@ -38,6 +38,15 @@ PRUNE_OPTS = [{'max_patterns': 1}, {'min_strings_per_pattern': 2},
               {'max_patterns': 2, 'tag': True}]
 
 
+def eff_tier(tier):
+    """thorough explores the full space under PYTHONHASHSEED=0 and repeats
+    the quick space under hash seeds 1 and 2"""
+    import os
+    if tier == 'thorough' and os.environ.get('PYTHONHASHSEED') in ('1', '2'):
+        return 'quick'
+    return tier
+
+
 def uncovered_class(unc, rexes):
     """root cause (a C03 matter) of an example no returned expression
     matches"""
@@ -90,28 +99,32 @@ class C18(Check):
         L = [('n1', 'one distinct example, freq 1..3, 8 option points'),
              ('n2', 'pairs x {1,2,3}^2 x 8 option points'),
              ('n3', 'triples x {1,2}^3 (thorough {1,2,3}^3), default '
-                    'options'),
+                    'options, list and dict input alternating'),
              ('overlap', 'rex_coverage / rex_incremental_coverage / '
                          'rex_full_incremental_coverage on overlapping '
                          'hand-made expression lists')]
         if tier == 'thorough':
             L += [('n2wide', 'pairs over the 104-string alphabet'),
-                  ('n3opt', 'triples x {1,2,3}^3 x 7 option points'),
+                  ('n3opt', 'triples x {1,2}^3 x 7 option points'),
                   ('n4', 'quadruples x {1,2}^4 x 2 option points'),
                   ('prune', 'triples x pruning options (sum clause void)'),
                   ('sampled', 'sampling Size settings: triage only')]
         return L
 
     def cases(self, tier, layer):
+        full = tier
+        tier = eff_tier(tier)
+        if tier != full and layer not in ('n1', 'n2', 'n3', 'overlap'):
+            return
         allo = range(len(AB.OPTIONS))
         if layer == 'n1':
             for o in allo:
                 for s in AB.A_PAIR_T:
-                    yield {'x': [s], 'o': o, 'F': 3}
+                    yield {'x': [s], 'o': o, 'F': 3, 'forms': 2}
         elif layer == 'n2':
             for o in allo:
                 for xs in itertools.combinations(A18, 2):
-                    yield {'x': list(xs), 'o': o, 'F': 3}
+                    yield {'x': list(xs), 'o': o, 'F': 3, 'forms': 2}
         elif layer == 'n3':
             for xs in itertools.combinations(A18, 3):
                 yield {'x': list(xs), 'o': 0,
@@ -131,11 +144,11 @@ class C18(Check):
                                        'x': list(xs), 'F': 3 if th else 2}
         elif layer == 'n2wide':
             for xs in itertools.combinations(AB.A_PAIR, 2):
-                yield {'x': list(xs), 'o': 0, 'F': 3}
+                yield {'x': list(xs), 'o': 0, 'F': 3, 'forms': 2}
         elif layer == 'n3opt':
             for o in allo[1:]:
                 for xs in itertools.combinations(A18, 3):
-                    yield {'x': list(xs), 'o': o, 'F': 3}
+                    yield {'x': list(xs), 'o': o, 'F': 2}
         elif layer == 'n4':
             for o in (0, 1):
                 for xs in itertools.combinations(A18_QUAD, 4):
@@ -154,10 +167,22 @@ class C18(Check):
 
     def setup_worker(self, tier):
         import random
-        from tdda.rexpy import rexpy
-        self.rexpy = rexpy
+        import tdda.rexpy.rexpy as orig
         self.random = random
         self.tier = tier
+        self.src_path = orig.__file__
+        with open(self.src_path, encoding='utf-8') as f:
+            self.code = compile(f.read(), self.src_path, 'exec')
+        self.rexpy = self.fresh_module()
+
+    def fresh_module(self):
+        """new instance of the rexpy module: pristine module state per case"""
+        import types
+        m = types.ModuleType('tdda.rexpy.rexpy')
+        m.__file__ = self.src_path
+        m.__package__ = 'tdda.rexpy'
+        exec(self.code, m.__dict__)
+        return m
 
     def reset(self):
         rx = self.rexpy
@@ -171,6 +196,7 @@ class C18(Check):
             return fn(*a, **kw)
 
     def run_case(self, case):
+        self.rexpy = self.fresh_module()
         if case.get('k') == 'fn':
             return self.run_fn(case)
         R = Res()
@@ -183,7 +209,7 @@ class C18(Check):
         n = len(xs)
         self.reset()
         for fv in itertools.product(range(1, F + 1), repeat=n):
-            forms = ['list', 'dict'] if (n < 3 or self.tier == 'thorough') \
+            forms = ['list', 'dict'] if case.get('forms') == 2 \
                 else ['list' if sum(fv) % 2 else 'dict']
             for form in forms:
                 self.one(R, xs, list(fv), form, o, opts, pruning, sampled,
@@ -204,6 +230,21 @@ class C18(Check):
             R.out('extract-raises:%s' % type(e).__name__)
             return
         R.ev()
+        unc0 = None
+        if pruning:
+            # is some example uncovered even without pruning (C03 matter)?
+            try:
+                x0 = self.quiet(self.rexpy.Extractor, inp, **AB.OPTIONS[o])
+                k0, _ = M.kept_examples(list(zip(xs, fv)))
+                r0 = list(x0.results.rex) if x0.results else []
+                t0, _ = M.match_table(r0, list(k0))
+                u0 = M.uncovered(t0, k0)
+                if u0:
+                    unc0 = (u0, r0)
+            except Exception:
+                pass
+            R.ev()
+        self._unc0 = unc0
         strip = bool(opts.get('strip'))
         rem = bool(opts.get('remove_empties'))
         kept, info = M.kept_examples(list(zip(xs, fv)), strip, rem)
@@ -431,6 +472,10 @@ class C18(Check):
                   % ','.join(sorted(set(v[0].split(':')[0] for v in viols))))
             return
         cls = uncovered_class(unc, rexes) if unc else None
+        if pruning:
+            unc0 = getattr(self, '_unc0', None)
+            cls = uncovered_class(*unc0) if unc0 else 'other'
+            unc = unc0[0] if unc0 else []
         for figure, clause, d in viols:
             if unc and not (pruning and cls == 'other'):
                 sig = 'uncovered-example:%s' % cls
